@@ -156,7 +156,7 @@ def run(pid, tier, seed):
     t0 = time.time()
     selftest()
     if tier == "quick":
-        shards, n = 8, 60
+        shards, n = 16, 150
     else:
         shards, n = 16, 2500
     camp = core.Campaign()
